@@ -124,7 +124,9 @@ void Kernel::set_online(unsigned cpu, bool on) {
   if (on) online.insert(cpu); else { if (online.size() <= 1) return; online.erase(cpu); }
   for (int t : tids) {
     if (observable_mask(t).empty()) aff.erase(t);          // select_fallback_rq(): back to the cpuset of the task
-    if (observable_mask(t).empty()) { aff[t] = online; }   // ... and to any possible CPU if that has nothing online either
+    // ... and to any possible CPU if that has nothing online either. Linux then also widens what the task may be bound to (a cpuset whose
+    // CPUs are all offline inherits the effective CPUs of its parent): the mask the kernel reports for a thread is always one it accepts back
+    if (observable_mask(t).empty()) { for (unsigned x : online) allowed.insert(x); aff[t] = online; }
     auto c = curcpu.find(t);
     if (c == curcpu.end() || !observable_mask(t).count((unsigned)c->second)) redraw(t);
   }
